@@ -13,8 +13,10 @@
      Model/OdoStream.v row_loop / rows_N / rows_V / rows_VB: COBOL_EBCDIC_Sheet.set_schema + row_iter over the RECFM
                        readers of Model/Recfm.v; a row = (buffer handed to Row(), navigator built on it).
    [dcount] (decoding of a counter field) and the element type of records are arbitrary.
-   The general nested shapes (ODO tables inside groups, REDEFINES) are C01's layout theorem; here the flat family is
-   proved completely and the nested shapes are covered by the correspondence run only. *)
+   The flat family is proved completely, file framing included (C06_stream_*).  The general nested shapes (ODO tables
+   inside non-repeated groups, sibling groups, next to REDEFINES unions) have the layout theorem C06_layout at the end of
+   this file (Proofs/LayoutOdoP.v, extending C01's development); their composition with the file readers, and ODO inside a
+   table or a REDEFINES member, are covered by the correspondence run only. *)
 From Coq Require Import ZArith NArith List.
 Import ListNotations.
 Require Import SR.Base.Res SR.Gen.RecfmParams SR.Spec.Recfm SR.Model.Recfm.
